@@ -13,7 +13,8 @@ package main
 //     followed by an unconditional variadic call of the same or another arity; several such filters compete for
 //     the same nodes, so the operand-stack registers see every interleaving of arities.
 // Besides the history oracle, every (rule set, file) pair is checked for locality inside one run: the reports
-// inside a top-level declaration must be those of a run over a file that has only this declaration.
+// inside a top-level declaration (a top-level statement of a function body) must be those of a run over a file that
+// has only this declaration (only this statement in its function).
 
 import (
 	"encoding/json"
@@ -533,6 +534,26 @@ func declFile(f *ast.File, d ast.Decl) *ast.File {
 	return &g
 }
 
+// stmtFile: a copy of f that has only the function d, whose body has only the statement st (nodes are shared).
+func stmtFile(f *ast.File, d *ast.FuncDecl, st ast.Stmt) *ast.File {
+	body := *d.Body
+	body.List = []ast.Stmt{st}
+	fd := *d
+	fd.Body = &body
+	return declFile(f, &fd)
+}
+
+// inside keeps the reports whose node lies inside [lo, hi].
+func inside(rs []hReport, lo, hi int) []hReport {
+	var out []hReport
+	for _, r := range rs {
+		if r.Pos >= lo && r.End <= hi && r.End > r.Pos {
+			out = append(out, r)
+		}
+	}
+	return out
+}
+
 func diffReports(got, want []hReport) string {
 	if len(got) != len(want) {
 		for i := 0; i < len(got) && i < len(want); i++ {
@@ -679,6 +700,29 @@ func runHistory(enc *json.Encoder, rng *rand.Rand, nhist, size int, tmp string) 
 			if obs.Mismatch == "" {
 				if d := diffReports(want, got); d != "" {
 					obs.Mismatch = "the run over the whole file gives " + d + " (= what runs over each top-level declaration alone give)"
+				}
+			}
+			// one level down: the reports inside a top-level statement of a function body are those of a run over a
+			// file that has only this function with only this statement
+			for _, d := range pool[fi].File.Decls {
+				fd, ok := d.(*ast.FuncDecl)
+				if !ok || fd.Body == nil || len(fd.Body.List) < 2 {
+					continue
+				}
+				for si, st := range fd.Body.List {
+					if obs.Mismatch != "" {
+						break
+					}
+					lo, hi := pool[fi].Fset.Position(st.Pos()).Offset, pool[fi].Fset.Position(st.End()).Offset
+					r, _, emsg := runOnce(e, pool[fi], stmtFile(pool[fi].File, fd, st), 0, nil, -1)
+					if emsg != "" {
+						obs.Mismatch = fmt.Sprintf("run over statement #%d of %s alone: %s", si, fd.Name.Name, emsg)
+						break
+					}
+					obs.Panics++ // counts the statement-level runs of this observation
+					if d := diffReports(inside(want, lo, hi), inside(r, lo, hi)); d != "" {
+						obs.Mismatch = fmt.Sprintf("inside statement #%d of %s (offsets %d-%d) the run over the whole file gives %s (= what a run over this statement alone gives)", si, fd.Name.Name, lo, hi, d)
+					}
 				}
 			}
 			if obs.Mismatch != "" {
